@@ -241,6 +241,7 @@ def run_scripts(scripts, servertype):
             execs.clear()
             sc.set_budget(20000)
             config.LOGWIRE = sc_i % 2 == 1          # (every other script with the wire-level logging of both sides switched on)
+            config.MAX_RETRIES = (0, 2, 1)[sc_i % 3]  # (the process-wide default differs from what this proxy is told: the proxy's own setting is in force)
             layer = FaultLayer()
             net.hook = layer
             tr = [{"e": "cfg", "retries": retries, "seq0": seq0}]
@@ -312,6 +313,7 @@ def run_scripts(scripts, servertype):
         drv.shutdown()
         d.close()
         config.LOGWIRE = False
+        config.MAX_RETRIES = 0
     res, sc = memnet.run(main, max_steps=5000000)
     if res.get("hang") and len(traces) < len(scripts):
         raise util.MachineryError("the scheduler session hung outside a call (script %d)" % len(traces))
